@@ -74,7 +74,7 @@ func init() {
 	reg(&PropSpec{
 		ID: "C02", Prefix: "vh_C02_", MaxSteps: 20000000,
 		Quick:    Tier{Params: map[string]int{"kwpos": 4, "spellings": 2, "slots": 3, "nested_targets": 1}},
-		Thorough: Tier{Params: map[string]int{"kwpos": 12, "spellings": 3, "slots": 3, "nested_targets": 1, "chain_orders": 1}},
+		Thorough: Tier{Params: map[string]int{"kwpos": 12, "spellings": 3, "slots": 3, "nested_targets": 1, "chain_orders": 1, "import_orders": 1}},
 		Bounds: []string{
 			"schemas family: three documents (root with definitions A,B and a leaf named a; sub/a.json with \"C d\"; a third document with D in another directory tree), either all file: URLs or http URLs with the third document on another port of the same host; each of A,B,C holds, at a keyword position chosen among kwpos of {properties, items, tuple items, allOf, anyOf, oneOf, not, additionalProperties, additionalItems, patternProperties, dependencies, definitions}, either nothing or a $ref to one of A,B,C,D (in one of `spellings` spellings), to the whole document sub/a.json, or to a pointer below a definition (fragment-only / relative path with ../ / absolute URL); all combinations explored (every cycle topology over these nodes arises); property name needs ~0/~1 escaping",
 			"chains family: root parameters/responses/path item that reference (or not) parameters/responses/path items of two other documents, second hops local to those documents or back into the root; same names with different content in different documents so that a wrong-document resolution changes the meaning",
